@@ -69,6 +69,9 @@ func c25alphabet() []string {
 					p.QoS = q
 					a = append(a, cl.EvG(fmt.Sprintf("%s(q%d,mid %d)", refsn.Names[ty], q, mid), p.Encode()))
 				}
+				// a retransmission may be the first copy the client sees
+				p.QoS, p.DUP = 2, true
+				a = append(a, cl.EvG(fmt.Sprintf("%s(q2,DUP,mid %d)", refsn.Names[ty], mid), p.Encode()))
 				continue
 			case refsn.AUTH:
 				p.Str, p.Data = "PLAIN", []byte("\x00u\x00p")
